@@ -269,8 +269,9 @@ open(os.path.join(LEAN, "MsqProofs/Lemmas/ParseCaseDefs.lean"), "w", encoding="u
 NPARTS = 6
 parts = [[] for _ in range(NPARTS)]
 for i, n in enumerate(order): parts[i % NPARTS].append(n)
+NEED5 = {"pFunc", "pSingleParen", "pSplit", "pSelectStmt", "pWindowBody"}      # functions whose step needs ParseCase5.lean (hand-written extras)
 for k, names in enumerate(parts):
-    out = ["import MsqProofs.Lemmas.ParseCaseDefs", HEADER % ("fuel step for the mutual block, part %d of %d" % (k + 1, NPARTS))] + OPTS
+    out = ["import MsqProofs.Lemmas.ParseCase5" if NEED5 & set(names) else "import MsqProofs.Lemmas.ParseCaseDefs", HEADER % ("fuel step for the mutual block, part %d of %d" % (k + 1, NPARTS))] + OPTS
     out += ["variable (d : Gen.D)", ""]
     for n in names:
         f = fns[n]
@@ -348,13 +349,23 @@ def each_closed_lemmas(body, done):
     return out
 
 
-out = ["import MsqProofs.Lemmas.ParseCase", "import MsqProofs.Lemmas.ParseCase4",
+out = ["import MsqProofs.Lemmas.ParseCase", "import MsqProofs.Lemmas.ParseCase6",
        HEADER % "the statement level (MsqModel/Parse/Stmt.lean) and `parse_statements` on two case-equivalent token lists"] + OPTS
 for n in order:
     xs_, ys_, _, a1, a2 = quant(fns[n])
     out.append("grind_pattern %s_ce => %s, %s" % (n, " ".join([n, "d", "f"] + a1), " ".join([n, "d", "f"] + a2)))
 out.append("")
 GR = GRIND.replace("%s]", UPS_STMT + "]")
+# long `if`-chains: both runs are taken apart together (cer_ite), one goal per path; each leaf by the usual two-sided split
+LOCK = {"pStatement", "defColLoop", "createOpts", "createElems", "pAlterExpr"}
+PRE = {"pGenerated": "simp only [genModes_find] at h h'"}
+
+
+def lock_lines(ind, name, cex):
+    ite, oe = ("cex_ite", "cex_of_eq") if cex else ("cer_ite", "cer_of_eq")
+    return [ind + "unfold %s" % name,
+            ind + "repeat' (refine %s ?_ (fun _ _ => ?_) (fun _ _ => ?_))" % ite,
+            ind + "all_goals first | (refine %s (fun res res' h h' => ?_); %s%s) | %s" % (oe, CLOSE, GR, GR)]
 ec_done = set()
 for d in stmt_all + entry_defs:
     out += each_closed_lemmas(d.body, ec_done)
@@ -381,13 +392,22 @@ for d in stmt_all + entry_defs:
     bind = "(d : Gen.D) (f : Nat) " if any(f.skip) else ""
     out.append("theorem %s_ce %s: %s := by" % (d.name, bind, statement(f)))
     app1, app2 = " ".join([d.name] + a1), " ".join([d.name] + a2)
+    cex = rel_res(f.ret).startswith("CEX")
+    pre = [PRE[d.name]] if d.name in PRE else []
     if d.name == "createElems":
         out += ["  intro x0", "  induction x0 with",
                 "  | nil => intro x1 y0 y1 hr0 hr1; cases y0 <;> simp_all [createElems]",
                 "  | cons sg rest ih =>", "    intro x1 y0 y1 hr0 hr1", "    cases y0 with", "    | nil => simp at hr0", "    | cons sg' rest' =>",
-                "      simp only [cell_cons_cons] at hr0", "      cases x1; cases y1",
-                "      generalize h : createElems d f (sg :: rest) _ = res", "      generalize h' : createElems d f (sg' :: rest') _ = res'",
-                "      unfold createElems at h h'", "      " + CLOSE + GR]
+                "      simp only [cell_cons_cons] at hr0", "      cases x1; cases y1"] + lock_lines("      ", d.name, cex)
+    elif d.name in LOCK and uses(d.name, d.body):
+        assert hyps[0] == "x0 = y0", d.name
+        out += ["  intro x0", "  induction x0 with",
+                "  | zero => intro %s y0 %s %s; subst hr0; simp [%s]" % (" ".join(xs_[1:]), " ".join(ys_[1:]), " ".join(hs), d.name),
+                "  | succ g ih =>", "    intro %s y0 %s %s" % (" ".join(xs_[1:]), " ".join(ys_[1:]), " ".join(hs)), "    subst hr0"]
+        if destruct: out.append("    " + "; ".join(destruct))
+        out += lock_lines("    ", d.name, cex)
+    elif d.name in LOCK:
+        out += ["  intro %s" % " ".join(xs_ + ys_ + hs)] + lock_lines("  ", d.name, cex)
     elif uses(d.name, d.body):
         assert hyps[0] == "x0 = y0", d.name
         out += ["  intro x0", "  induction x0 with",
@@ -397,7 +417,7 @@ for d in stmt_all + entry_defs:
                 "    " + des + "unfold %s at h h'" % d.name, "    " + CLOSE + GR]
     else:
         out += ["  intro %s" % " ".join(xs_ + ys_ + hs), "  generalize h : %s = res" % app1, "  generalize h' : %s = res'" % app2,
-                "  " + des + "unfold %s at h h'" % d.name, "  " + CLOSE + GR]
+                "  " + des + "unfold %s at h h'" % d.name] + ["  " + l for l in pre] + ["  " + CLOSE + GR]
     pat1 = " ".join([d.name] + a1); pat2 = " ".join([d.name] + a2)
     out += ["grind_pattern %s_ce => %s, %s" % (d.name, pat1, pat2), ""]
 out += ["end PM"]
